@@ -5,6 +5,7 @@ import (
 	"fmt"
 	"os"
 	"path/filepath"
+	"regexp"
 	"strings"
 
 	"govc/vc"
@@ -70,3 +71,9 @@ func undecided(key, why string) *vc.Emitter {
 	em.Obls = append(em.Obls, ob)
 	return em
 }
+
+var partRe = regexp.MustCompile(`\.\d+@`)
+
+// normAnchor drops the conjunct number of a split postcondition ("post:inv.3@ret1" -> "post:inv@ret1"): anchors name
+// the clause, however many obligations it is split into.
+func normAnchor(s string) string { return partRe.ReplaceAllString(s, "@") }
